@@ -86,6 +86,11 @@ class Explorer:
                     res = ("fuel", str(e))
                 except RecursionError as e:
                     res = ("unsupported", "RecursionError")
+                except TypeError as e:
+                    if "__hash__ method should return an integer" in str(e):
+                        res = ("unsupported", "symbolic hash value reached CPython's C-level hash()")
+                    else:
+                        res = ("raise", e)
                 except Exception as e:  # the real code raised
                     res = ("raise", e)
             finally:
